@@ -277,16 +277,17 @@ def walk_own(fn: ast.AST) -> Iterator[ast.AST]:
     if isinstance(fn, ast.Lambda):
         todo.append(fn.body)
     elif isinstance(fn, (ast.FunctionDef, ast.AsyncFunctionDef)):
-        todo.extend(fn.body)
+        todo.extend(reversed(fn.body))
     else:
         todo.append(fn)
+    # pre-order, source order
     while todo:
         n = todo.pop()
         yield n
         if isinstance(n, (ast.FunctionDef, ast.AsyncFunctionDef, ast.Lambda, ast.ClassDef)):
             # the def statement itself is visible, its body belongs to the nested scope
             continue
-        todo.extend(ast.iter_child_nodes(n))
+        todo.extend(reversed(list(ast.iter_child_nodes(n))))
 
 
 def walk_all(fn: ast.AST) -> Iterator[ast.AST]:
